@@ -3,20 +3,34 @@ from props import prop
 prop("C13", "exploration",
      "rapid draws programs: initialisation (InitializeEmpty / Initialize with key 1..135 bytes, id filling up to the 136-byte "
      "limit, counter 0..300 bytes; empty key = hash mode) followed by 1..40 operations allowed by the mode's contract with operand "
-     "lengths biased to {0,1,135,136,137,271,272,273,408,1000}; at a drawn point the object is cloned and the clone plays the peer "
-     "(decrypts what the original encrypts and vice versa, otherwise the same calls). Oracle: every output equals an independent "
-     "Cyclist reference (Xoodyak-spec style, byte-array Keccak-p[1600,12]) anchored to the repository's XKCP transcript and to "
-     "stdlib SHA3-256; peer outputs equal; in-place equals out-of-place. Plus every operand length 0..410 for each operation "
-     "(exhaustive sub-space). Run on the assembly permutation and on the generic one (-tags appengine). Non-trivial = program with "
-     "an empty or >=136-byte operand, or >=3 operations of >=2 kinds; distinct by hash of the program.",
-     ["operations documented to panic in the wrong mode are not called", "len(key)+len(id)+1 <= 136 (the documented absorbKey buffer)",
+     "lengths biased to {0,1,135,136,137,271,272,273,408,1000}; one operation in thirteen INITIALISES THE OBJECT AGAIN (drawn like "
+     "the first initialisation, so the mode may change) in whatever phase the previous operation left it; at a drawn point the "
+     "object is cloned and the clone plays the peer (decrypts what the original encrypts and vice versa, otherwise the same calls, "
+     "including re-initialisation). Oracle: every output equals an independent Cyclist reference (Xoodyak-spec style, byte-array "
+     "Keccak-p[1600,12]) anchored to the repository's XKCP transcript and to stdlib SHA3-256 - for 'initialise again' the reference "
+     "starts a fresh instance ('resets ... to an initial state'); peer outputs equal. Plus every operand length 0..410 for each "
+     "operation and every (mode, last operation, operand length, way of initialising again) combination (exhaustive sub-spaces). "
+     "Concurrent dimension: 2..4 goroutines each run an independently drawn program 1..6 times on objects of their OWN after a "
+     "common start barrier (only real duplex calls run between barrier and end; reference traces are computed beforehand); every "
+     "repetition must equal the reference; a deviating repetition is re-run alone to tell a sequential defect from interference "
+     "between independent objects. Run on the assembly permutation, on the generic one (-tags appengine), and the concurrent test "
+     "also under the race detector. Non-trivial = program with an empty or >=136-byte operand, or >=3 operations of >=2 kinds "
+     "(concurrent case: >=2 such programs); distinct by hash of the program(s).",
+     ["operations documented to panic in the wrong mode are not called", "no object is ever shared between goroutines (each goroutine creates and uses its own)", "len(key)+len(id)+1 <= 136 (the documented absorbKey buffer)",
       "the reference implementation is mine; its anchors are cyclist/testdata/xkcp.txt and crypto/sha3"],
-     [dict(name="asm", pkg="cyclist", run="^TestVerifC13", shards=dict(quick=8, thorough=16), thorough_scale=100),
-      dict(name="generic", pkg="cyclist", tags=("appengine",), run="^TestVerifC13", shards=dict(quick=8, thorough=16), thorough_scale=100)],
+     [dict(name="asm", pkg="cyclist", run="^TestVerifC13(Programs|Boundaries)$", shards=dict(quick=8, thorough=16), thorough_scale=100),
+      dict(name="generic", pkg="cyclist", tags=("appengine",), run="^TestVerifC13(Programs|Boundaries)$", shards=dict(quick=8, thorough=16), thorough_scale=100),
+      dict(name="concurrent", pkg="cyclist", run="^TestVerifC13Concurrent$", shards=dict(quick=8, thorough=8), thorough_scale=20),
+      dict(name="concurrent-generic", pkg="cyclist", tags=("appengine",), run="^TestVerifC13Concurrent$", shards=dict(quick=8, thorough=8), thorough_scale=20),
+      dict(name="concurrent-race", pkg="cyclist", race=True, run="^TestVerifC13Concurrent$", shards=dict(quick=8, thorough=8), thorough_scale=10)],
      exhaustive_core=True,
      text="Differential search: generated duplex programs are run on the real Cyclist (both permutation builds) and on an independent "
           "reference written from the specification and anchored to published vectors; every output, and the synchrony of a cloned "
-          "peer, is compared. Single-operation programs are enumerated for every operand length across three rate blocks.",
-     note="trusts the reference (anchored to XKCP transcript + SHA3-256 of the standard library) and rapid",
-     technique="property-based differential testing (rapid) against an independent reference + bounded enumeration",
+          "peer, is compared; programs re-initialise the object in mid-run. Single-operation programs are enumerated for every "
+          "operand length across three rate blocks. Several goroutines running programs on objects of their own at the same time "
+          "must each match the reference (also under the race detector).",
+     note="trusts the reference (anchored to XKCP transcript + SHA3-256 of the standard library), rapid and the race detector; "
+          "interleavings of the concurrent test are those the Go scheduler produces, not enumerated",
+     technique="property-based differential testing (rapid) against an independent reference + bounded enumeration; concurrent "
+               "runs on independent objects, also under the race detector",
      design="DESIGN.md section 4, C13")
